@@ -147,6 +147,49 @@ def _symq(n, d):
         return n / d
 
 
+def parse_constructor_text(text, scope):
+    """evaluates printed constructor calls  Name(arg, ..., key=value)  with an explicit stack (no nesting limit); leaves (numbers, strings,
+    tokens) are evaluated with eval in `scope`"""
+    import re
+    tok = re.compile(r'\s*(?:([A-Za-z_][A-Za-z_0-9]*)\s*(\()|([A-Za-z_][A-Za-z_0-9]*)\s*=|("(?:[^"\\]|\\.)*"|\'(?:[^\'\\]|\\.)*\')|([^(),=\s][^(),=]*)|([(),]))')
+    pos, n = 0, len(text)
+    stack = []          # frames: [callable, args, kwargs, pending_key]
+    result = None
+    while pos < n:
+        m = tok.match(text, pos)
+        if not m:
+            if text[pos:].strip() == "":
+                break
+            raise SyntaxError(f"cannot parse printed form at {pos}: {text[pos:pos + 30]!r}")
+        pos = m.end()
+        if m.group(1):                       # Name(
+            stack.append([scope[m.group(1)], [], {}, None])
+        elif m.group(3):                     # key=
+            stack[-1][3] = m.group(3)
+        elif m.group(4) or m.group(5):       # leaf
+            v = eval((m.group(4) or m.group(5)).strip(), {"__builtins__": {}}, scope)
+            fr = stack[-1]
+            if fr[3] is not None:
+                fr[2][fr[3]] = v
+                fr[3] = None
+            else:
+                fr[1].append(v)
+        elif m.group(6) == ")":
+            f, a, k, _ = stack.pop()
+            v = f(*a, **k)
+            if stack:
+                fr = stack[-1]
+                if fr[3] is not None:
+                    fr[2][fr[3]] = v
+                    fr[3] = None
+                else:
+                    fr[1].append(v)
+            else:
+                result = v
+        # "," and a stray "(" need no action
+    return result
+
+
 def _symbolic_scope():
     """names that only occur in printed forms under the symbolic engine: exact rationals and opaque tokens of symbolic numbers"""
     scope = {"SYMQ": _symq}
@@ -171,6 +214,9 @@ def clone(obj, sm, E):
     scope = {k: getattr(E, k) for k in E.__all__}
     scope.update({k: getattr(sm, k) for k in sm.__all__})
     scope.update(_symbolic_scope())
+    text = repr(obj)
+    if text.count("(") > 60:
+        return parse_constructor_text(text, scope)       # Python's own parser gives up beyond ~200 nested parentheses
     return eval(repr(obj), {"__builtins__": {}}, scope)
 
 
